@@ -73,74 +73,165 @@ def check_copies(ctx, bp):
     ctx.ob('bp-on-copies', bp, bp.node, ok, 'the returned marginals do not alias the caller\'s potentials', construct='return of belief_propagation')
 
 
+class BPTerms:
+    """symbolic terms for the message loop: keys, beliefs, messages, separators (value-based, so renames / temporaries /
+    conditional expressions / hoisting do not matter)"""
+
+    def __init__(self):
+        self.env = {}
+        self.stores = []      # (stmt, key term, value term)
+        self.absorbs = []     # (stmt, key term, value term)
+
+    def term(self, e):
+        if isinstance(e, ast.Name):
+            return self.env.get(e.id, ('name', e.id))
+        if isinstance(e, ast.Tuple) and len(e.elts) == 2:
+            return ('key', self.term(e.elts[0]), self.term(e.elts[1]))
+        if isinstance(e, ast.Subscript):
+            base = U(e.value)
+            k = self.term(e.slice)
+            if base == 'beliefs':
+                return ('belief', k)
+            if base == 'messages':
+                return ('msg', k)
+            if base == 'self.sep_axes':
+                return ('sepaxes', k)
+            return ('index', base, k)
+        if isinstance(e, ast.Attribute) and e.attr == 'domain':
+            return ('dom', self.term(e.value))
+        if isinstance(e, ast.Call) and isinstance(e.func, ast.Attribute):
+            m = e.func.attr
+            recv = self.term(e.func.value)
+            if m == 'invert' and len(e.args) == 1:
+                return ('invert', recv, self.term(e.args[0]))
+            if m == 'logsumexp':
+                if not e.args and not e.keywords:
+                    return ('lse', recv, None)
+                return ('lse', recv, ('over', self.term(e.args[0])))
+            if m == 'project' and e.args and any(k.arg == 'agg' and isinstance(k.value, ast.Constant) and k.value.value == 'logsumexp'
+                                                  for k in e.keywords):
+                return ('lse', recv, ('onto', self.term(e.args[0])))
+        if isinstance(e, ast.BinOp) and isinstance(e.op, ast.Sub):
+            return ('sub', self.term(e.left), self.term(e.right))
+        if isinstance(e, ast.IfExp):
+            return self.cond(self.test(e.test), self.term(e.body), self.term(e.orelse))
+        return ('expr', U(e))
+
+    def test(self, t):
+        if isinstance(t, ast.Compare) and len(t.ops) == 1 and U(t.comparators[0]) == 'messages':
+            k = self.term(t.left)
+            return ('has', k) if isinstance(t.ops[0], ast.In) else ('hasnot', k) if isinstance(t.ops[0], ast.NotIn) else ('test', U(t))
+        if isinstance(t, ast.UnaryOp) and isinstance(t.op, ast.Not):
+            r = self.test(t.operand)
+            return ('hasnot', r[1]) if r[0] == 'has' else ('has', r[1]) if r[0] == 'hasnot' else ('test', U(t))
+        return ('test', U(t))
+
+    @staticmethod
+    def cond(test, a, b):
+        if test[0] == 'hasnot':
+            test, a, b = ('has', test[1]), b, a
+        if a == b:
+            return a
+        return ('cond', test, a, b)
+
+    def run(self, stmts):
+        for s in stmts:
+            if isinstance(s, ast.Assign) and len(s.targets) == 1:
+                t = s.targets[0]
+                v = self.term(s.value)
+                if isinstance(t, ast.Name):
+                    self.env[t.id] = v
+                elif isinstance(t, ast.Subscript) and U(t.value) == 'messages':
+                    self.stores.append((s, self.term(t.slice), v))
+                elif isinstance(t, ast.Subscript) and U(t.value) == 'beliefs':
+                    self.absorbs.append((s, self.term(t.slice), ('assign', v)))
+            elif isinstance(s, ast.AugAssign) and isinstance(s.target, ast.Subscript) and U(s.target.value) == 'beliefs' \
+                    and isinstance(s.op, ast.Add):
+                self.absorbs.append((s, self.term(s.target.slice), self.term(s.value)))
+            elif isinstance(s, ast.If):
+                t = self.test(s.test)
+                saved = dict(self.env)
+                self.run(s.body)
+                a = self.env
+                self.env = dict(saved)
+                self.run(s.orelse)
+                b = self.env
+                merged = {}
+                for k in set(a) | set(b):
+                    if k in a and k in b:
+                        merged[k] = self.cond(t, a[k], b[k])
+                self.env = merged
+
+
 def check_equations(ctx, bp):
-    loops = [s for s in bp.body if isinstance(s, ast.For) and isinstance(s.target, ast.Tuple) and len(s.target.elts) == 2]
-    if len(loops) != 1 or U(loops[0].iter) != 'self.message_order':
+    loops = [s for s in bp.body if isinstance(s, ast.For) and isinstance(s.target, ast.Tuple) and len(s.target.elts) == 2
+             and U(s.iter) == 'self.message_order']
+    if len(loops) != 1:
         raise AnalysisError('belief_propagation: message loop over self.message_order not found')
     loop = loops[0]
     i, j = [U(e) for e in loop.target.elts]
-    text = {}
-    stores, augs = [], []
-    for s in ast.walk(loop):
-        if isinstance(s, ast.Assign) and len(s.targets) == 1:
-            text[U(s.targets[0])] = s
-            if isinstance(s.targets[0], ast.Subscript):
-                stores.append(s)
-        if isinstance(s, ast.AugAssign):
-            augs.append(s)
-    fwd = ('messages[%s, %s]' % (i, j), 'messages[(%s, %s)]' % (i, j))
-    rev_key = '(%s, %s)' % (j, i)
-    # (1) division by the reverse message, guarded by its presence, through Factor subtraction
-    subs = [n for n in ast.walk(loop) if isinstance(n, ast.BinOp) and isinstance(n.op, ast.Sub)]
-    ok_div = False
-    where = loop
-    for n in subs:
-        if U(n.left) == 'beliefs[%s]' % i and isinstance(n.right, ast.Subscript) and U(n.right.value) == 'messages' \
-                and U(n.right.slice).strip('()') == '%s, %s' % (j, i):
-            where = n
-            guard = None
-            p = getattr(n, '_parent', None)
-            child = n
-            while p is not None and p is not loop:
-                if isinstance(p, (ast.If, ast.IfExp)):
-                    guard = p
-                    break
-                child, p = p, getattr(p, '_parent', None)
-            ok_div = guard is not None and U(guard.test).replace(' ', '') in ('(%s,%s)inmessages' % (j, i),)
+    I, J = ('name', i), ('name', j)
+    KEY, REV = ('key', I, J), ('key', J, I)
+    ex = BPTerms()
+    ex.run(loop.body)
     raw = [n for n in ast.walk(loop) if isinstance(n, ast.Attribute) and n.attr == 'values']
-    ctx.ob('bp-equations', bp, where, ok_div and not raw,
-           'outgoing message must exclude what came from the receiver: tau = beliefs[%s] - messages[%s] when that message exists, '
-           'as a Factor subtraction (infinity aware)%s' % (i, rev_key, '; raw .values arithmetic found' if raw else ''))
-    # (2) marginalise onto the separator: logsumexp over clique_i minus sep_axes[(i,j)]
-    ok_msg, msg_stmt = False, None
-    for s in stores:
-        if U(s.targets[0]).replace(' ', '') in ('messages[%s,%s]' % (i, j), 'messages[(%s,%s)]' % (i, j)):
-            msg_stmt = s
-            v = s.value
-            # equivalent spelling: project onto the separator with log-sum-exp aggregation
-            if isinstance(v, ast.Call) and isinstance(v.func, ast.Attribute) and v.func.attr == 'project' and len(v.args) >= 1 \
-                    and any(k.arg == 'agg' and isinstance(k.value, ast.Constant) and k.value.value == 'logsumexp' for k in v.keywords) \
-                    and U(v.args[0]).replace(' ', '') in ('self.sep_axes[%s,%s]' % (i, j), 'self.sep_axes[(%s,%s)]' % (i, j)):
-                ok_msg = True
-            if isinstance(v, ast.Call) and isinstance(v.func, ast.Attribute) and v.func.attr == 'logsumexp' and len(v.args) == 1:
-                sep = v.args[0]
-                sd = text.get(U(sep))
-                sv = sd.value if sd is not None else sep
-                ok_msg = U(sv).replace(' ', '') in ('beliefs[%s].domain.invert(self.sep_axes[%s,%s])' % (i, i, j),
-                                                    'beliefs[%s].domain.invert(self.sep_axes[(%s,%s)])' % (i, i, j))
-    ctx.ob('bp-equations', bp, msg_stmt or loop, ok_msg,
-           'message(%s->%s) must be the logsumexp of tau over the attributes of clique %s outside the separator '
-           '(beliefs[%s].domain.invert(self.sep_axes[(%s, %s)]))' % (i, j, i, i, i, j))
-    # (3) absorb into the receiver
-    ok_abs = any(isinstance(a.op, ast.Add) and U(a.target) == 'beliefs[%s]' % j and U(a.value).replace(' ', '') in
-                 ('messages[%s,%s]' % (i, j), 'messages[(%s,%s)]' % (i, j)) for a in augs)
-    ctx.ob('bp-equations', bp, augs[0] if augs else loop, ok_abs, 'the receiver absorbs the message: beliefs[%s] += messages[(%s, %s)]' % (j, i, j))
-    # (4) the normaliser is the full logsumexp of a clique belief, computed after the message loop
+    TAU = ('cond', ('has', REV), ('sub', ('belief', I), ('msg', REV)), ('belief', I))
+    MSG = [('lse', TAU, ('over', ('invert', ('dom', ('belief', I)), ('sepaxes', KEY)))), ('lse', TAU, ('onto', ('sepaxes', KEY)))]
+    st = [x for x in ex.stores if x[1] == KEY]
+    where = st[0][0] if st else loop
+    val = st[0][2] if st else None
+    tau_ok = val is not None and val[0] == 'lse' and val[1] == TAU
+    ctx.ob('bp-equations', bp, where, tau_ok and not raw,
+           'outgoing message must exclude what came from the receiver: it is computed from beliefs[%s] - messages[(%s, %s)] when that '
+           'message exists (else beliefs[%s]), as a Factor subtraction (infinity aware)%s; source term: %s'
+           % (i, j, i, i, '; raw .values arithmetic found' if raw else '', describe(val[1]) if val is not None and val[0] == 'lse' else describe(val)))
+    ctx.ob('bp-equations', bp, where, val in MSG,
+           'message(%s->%s) must be the logsumexp of that quantity over the attributes of clique %s outside the separator '
+           '(beliefs[%s].domain.invert(self.sep_axes[(%s, %s)]), or projection onto the separator); source term: %s'
+           % (i, j, i, i, i, j, describe(val)), construct='marginalisation in ' + (U(where)[:60] if st else 'message loop'))
+    ab = [x for x in ex.absorbs if x[1] == J]
+    ok_abs = len(ab) == 1 and (ab[0][2] in MSG or ab[0][2] == ('msg', KEY)) and len(ex.absorbs) == 1
+    ctx.ob('bp-equations', bp, ab[0][0] if ab else (ex.absorbs[0][0] if ex.absorbs else loop), ok_abs,
+           'the receiver absorbs the message: beliefs[%s] += message(%s->%s), and nothing else is absorbed' % (j, i, j))
+    # the normaliser is the full logsumexp of a clique belief, computed after the message loop
     after = bp.body[bp.body.index(loop) + 1:]
-    z = [s for s in after if isinstance(s, ast.Assign) and isinstance(s.value, ast.Call) and isinstance(s.value.func, ast.Attribute)
-         and s.value.func.attr == 'logsumexp' and not s.value.args]
-    ctx.ob('bp-equations', bp, z[0] if z else bp.node, bool(z) and U(z[0].value.func.value).startswith('beliefs['),
+    ex2 = BPTerms()
+    z = None
+    for s in after:
+        for n in ast.walk(s):
+            if isinstance(n, ast.Call) and isinstance(n.func, ast.Attribute) and n.func.attr == 'logsumexp' and not n.args and not n.keywords:
+                t = ex2.term(n)
+                if t[0] == 'lse' and t[1][0] == 'belief':
+                    z = n
+    ctx.ob('bp-equations', bp, z if z is not None else bp.node, z is not None,
            'logZ must be the full logsumexp of a calibrated belief, taken after all messages were sent')
+
+
+def describe(t):
+    if t is None:
+        return 'none'
+    if not isinstance(t, tuple):
+        return str(t)
+    k = t[0]
+    if k == 'name':
+        return t[1]
+    if k == 'key':
+        return '(%s, %s)' % (describe(t[1]), describe(t[2]))
+    if k in ('belief', 'msg', 'sepaxes'):
+        return {'belief': 'beliefs', 'msg': 'messages', 'sepaxes': 'sep_axes'}[k] + '[%s]' % describe(t[1])
+    if k == 'sub':
+        return '%s - %s' % (describe(t[1]), describe(t[2]))
+    if k == 'cond':
+        return '(%s if %s else %s)' % (describe(t[2]), describe(t[1]), describe(t[3]))
+    if k == 'has':
+        return '%s in messages' % describe(t[1])
+    if k == 'lse':
+        return 'logsumexp(%s%s)' % (describe(t[1]), '' if t[2] is None else ', %s %s' % (t[2][0], describe(t[2][1])))
+    if k == 'invert':
+        return '%s.invert(%s)' % (describe(t[1]), describe(t[2]))
+    if k == 'dom':
+        return describe(t[1]) + '.domain'
+    return str(t[1]) if len(t) > 1 else k
 
 
 def check_fill_in(ctx):
